@@ -29,7 +29,19 @@ def rl_limit(ns, tier, seed=0):
         over = RL_MAX + 1 - (2 + len(topic.encode("utf-8")) + (2 if qos else 0))
         cases.append((qos, topic, over, False))
     if tier == "thorough":
-        cases.append((1, "t", RL_MAX - 5, True))
+        # needs about 2 GiB of memory for a moment: only where that is clearly available
+        avail = 0
+        try:
+            with open("/proc/meminfo") as f:
+                for line in f:
+                    if line.startswith("MemAvailable:"):
+                        avail = int(line.split()[1]) // 1024
+        except (OSError, ValueError):
+            pass
+        if avail >= 8192:
+            cases.append((1, "t", RL_MAX - 5, True))
+        else:
+            out["coverage"]["rl_limit_accept_skipped_mem_available_mib"] = avail
     for (qos, topic, n, fits) in cases:
         cfg = {"profile": 2, "version": 4, "jitter": "zero", "family": "rl-limit"}
         w = World(ns, cfg)
@@ -40,7 +52,12 @@ def rl_limit(ns, tier, seed=0):
         i0 = len(w.events)
         st = {"op": "app.call", "addr": "A", "m": "publish",
               "k": {"topic": topic, "message": {"$": "barep", "s": "z", "n": n}, "qos": qos}}
-        w.run_step(st)
+        try:
+            w.run_step(st)
+        except MemoryError:
+            out["coverage"]["rl_limit_memory_error"] = out["coverage"].get("rl_limit_memory_error", 0) + 1
+            del w
+            continue
         ws = _writes(w, i0)
         ret = [e for e in w.events[i0:] if e[0] == "R"]
         fired = [e for e in w.events[i0:] if e[0] == "F"]
